@@ -70,6 +70,9 @@ func c01Run(w *W, c Case) {
 		st := ref.Stamp{Y: cy, M: cm, D: cd, H: t[0], Mi: t[1], S: t[2]}
 		key := fmtStamp(st)
 		w.Cur("C01 day " + key)
+		if j%13 == 0 {
+			distract(st, j/13)
+		}
 		s := solarOf(st)
 		l := s.GetLunar()
 		k := keyOf(l)
@@ -141,8 +144,12 @@ func c01Run(w *W, c Case) {
 			if da != db {
 				w.Violatef("path-digest", key, "accessors differ between Solar(%s).GetLunar() and NewLunar(%d,%d,%d,..): %s", key, k.y, k.m, k.d, diffDigests(da, db))
 			}
+			// the third route to the same object: the conversion constructor called directly
+			if dc := digest1(calendar.NewLunarFromSolar(s)); dc != da {
+				w.Violatef("path-digest", key+"/fromsolar", "accessors differ between Solar(%s).GetLunar() and NewLunarFromSolar of the same Solar: %s", key, diffDigests(da, dc))
+			}
 			w.Count("digests", 1)
-			w.Eval(1)
+			w.Eval(2)
 		}
 		// (iv) stepping on the lunar side equals stepping on the civil side
 		if j%11 == 0 || (by && j%3 == 0) {
